@@ -810,6 +810,70 @@ theorem plan_correct (S0 T : List α) (hS : (names S0).Nodup) (hT : (names T).No
     · exact Or.inr ⟨hx, hn⟩
     · exact Or.inl ⟨(hrest x hn).mpr hx, hn⟩
 
+-- ---------------------------------------------------------------------------------------------------------------
+-- up, then down
+
+theorem any_perm {l l' : List α} (h : l.Perm l') (p : α → Bool) : l.any p = l'.any p := by
+  cases hc : l'.any p with
+  | true =>
+    obtain ⟨x, hx, hp⟩ := List.any_eq_true.mp hc
+    exact List.any_eq_true.mpr ⟨x, h.mem_iff.mpr hx, hp⟩
+  | false =>
+    rw [List.any_eq_false] at hc ⊢
+    exact fun x hx => hc x (h.mem_iff.mp hx)
+
+/-- the machine does not see the order of the list -/
+theorem exec_perm {l l' : List α} (h : l.Perm l') (st : IStmt α) {r : List α} (he : exec l st = some r) :
+    ∃ r', exec l' st = some r' ∧ r.Perm r' := by
+  cases st with
+  | create s =>
+    simp only [exec] at he ⊢
+    rw [← any_perm h]
+    split at he
+    · cases he
+    · rename_i hc
+      rw [if_neg hc]
+      exact ⟨_, rfl, (Option.some.inj he) ▸ h.append_right [s]⟩
+  | drop n =>
+    simp only [exec] at he ⊢
+    rw [← any_perm h]
+    split at he
+    · rename_i hc
+      rw [if_pos hc]
+      exact ⟨_, rfl, (Option.some.inj he) ▸ h.filter _⟩
+    · cases he
+
+theorem execAll_perm : ∀ (sts : List (IStmt α)) {l l' r : List α}, l.Perm l' → execAll l sts = some r →
+    ∃ r', execAll l' sts = some r' ∧ r.Perm r' := by
+  intro sts
+  induction sts with
+  | nil => intro l l' r h he; exact ⟨l', rfl, (Option.some.inj he) ▸ h⟩
+  | cons st rest ih =>
+    intro l l' r h he
+    unfold execAll at he ⊢
+    cases h1 : exec l st with
+    | none => rw [h1] at he; cases he
+    | some l1 =>
+      rw [h1] at he
+      obtain ⟨l1', h1', hp1⟩ := exec_perm h st h1
+      rw [h1']
+      exact ih hp1 he
+
+/-- **the down emission undoes the up emission**: from the old list, up and then down is well-formed at every step and
+    ends in the old list up to order -/
+theorem up_then_down (N O : List α) (hN : (names N).Nodup) (hO : (names O).Nodup) :
+    ∃ R R', execAll O (emit N O) = some R ∧ execAll R (emitDown N O) = some R' ∧ R'.Perm O := by
+  obtain ⟨R, hR, hRN⟩ := emit_correct N O hN hO
+  obtain ⟨D, hD, hDO⟩ := emitDown_correct N O hN hO
+  obtain ⟨R', hR', hp⟩ := execAll_perm (emitDown N O) hRN.symm hD
+  exact ⟨R, R', hR, hR', hp.symm.trans hDO⟩
+
+theorem up_then_down_keep (N O : List α) (hN : (names N).Nodup) (hO : (names O).Nodup)
+    (hnr : ∀ s ∈ N, ∀ o ∈ O, (nm s) = (nm o) → s = o) :
+    ∃ R R', execAll O (emitKeep N O) = some R ∧ execAll R (emitDownKeep N O) = some R' ∧ R'.Perm O := by
+  rw [emitKeep_eq N O hnr, emitDownKeep_eq N O hnr]
+  exact up_then_down N O hN hO
+
 -- the statements are non-trivial and the hypotheses satisfiable
 example : emit (α := IdxSpec) [⟨"a", ["x"], false, "BTREE"⟩, ⟨"b", ["y"], true, "BTREE"⟩, ⟨"n", ["z"], false, "HASH"⟩]
               [⟨"b", ["x", "y"], true, "BTREE"⟩, ⟨"a", ["x"], false, "BTREE"⟩, ⟨"old", ["x"], false, "BTREE"⟩] =
